@@ -7,6 +7,10 @@ def jobs(tier):
             witnesses=['eos block','capped at N','ordinary block','no block'],
             functions=['vorbis_analysis_blockout'],models=['M-dsp: envelope search/mark = any decision; _vp_ampmax_decay identity'],
             bounds='block sizes (%d,%d) concrete; every other field symbolic under I_enc; A,sequence<2^40; inductive step => any N, any write partition'%(1<<e0,1<<e1)))
+    for e0,e1 in ([(6,6),(6,7)] if tier=='quick' else [(6,6),(6,7),(6,8),(7,7)]):
+        J.append(Job('enc-base-%d-%d'%(1<<e0,1<<e1),'C04/enc_base.c',defs=['-DE0=%d'%e0,'-DE1=%d'%e1,'-DVMAX=100'],unwind=4,unwindset=[('_preextrapolate_helper',r'j<v->pcm_current',2*(1<<e1)+104)],slice=True,
+            witnesses=['refused','accepted','end of a very short input','end of input'],functions=['vorbis_analysis_buffer','vorbis_analysis_wrote','_preextrapolate_helper'],
+            models=['M-dsp: LPC extrapolation cut (writes only float data)'],bounds='block sizes (%d,%d), fill <= 4 long blocks, writes of -2..100 samples, 1 channel'%(1<<e0,1<<e1)))
     import importlib.util as _u, os as _o
     pth=_o.path.join(_o.path.dirname(_o.path.dirname(_o.path.abspath(__file__))),'block','jobs_common.py'); sp=_u.spec_from_file_location('blk',pth); m=_u.module_from_spec(sp); sp.loader.exec_module(m)
     J+=[j for j in m.blockin_jobs(tier) if j.name.startswith('blockin-step')]
